@@ -9,7 +9,10 @@ from . import kernel
 
 
 def _fails(cls, cfg, steps, key):
-    res = kernel.replay_run(cls, cfg, steps)
+    try:
+        res = kernel.replay_run(cls, cfg, steps)
+    except Exception:       # a shrunk candidate the world cannot execute is simply not kept
+        return None
     for v in res["violations"]:
         if (v["property"], v["oracle"]) == key:
             return res
@@ -60,7 +63,8 @@ def _shrink_candidates(step):
             for k, v in obj.items():
                 yield from lists(v, path + (k,))
         elif isinstance(obj, list):
-            if path and path[-1] in ("obs", "tracks", "edges", "values", "idx", "pattern") and len(obj) > 1:
+            if path and path[-1] in ("obs", "tracks", "edges", "values", "idx", "pattern") and len(obj) > 1 \
+                    and (path[-1] in ("idx", "pattern", "values") or all(isinstance(e, (list, dict)) for e in obj)):
                 yield path
             for i, v in enumerate(obj):
                 yield from lists(v, path + (i,))
